@@ -401,6 +401,16 @@ impl fmt::Display for Ast {
 
 // ========================================================================= //
 
+/// Converts the result of a checked integer operation into a value; an
+/// overflow (or an out-of-range shift count) evaluates to null, like the other
+/// errors in an expression.
+fn checked(result: Option<i32>) -> Value {
+    match result {
+        Some(number) => Value::Int(number),
+        None => Value::Null,
+    }
+}
+
 /// A unary operation.
 #[derive(Clone, Copy)]
 enum UnOp {
@@ -413,7 +423,7 @@ impl UnOp {
     fn eval(&self, arg: Value) -> Value {
         match *self {
             UnOp::Neg => match arg {
-                Value::Int(number) => Value::Int(-number),
+                Value::Int(number) => checked(number.checked_neg()),
                 _ => Value::Null,
             },
             UnOp::BitNot => match arg {
@@ -458,7 +468,7 @@ impl BinOp {
             BinOp::Ge => Value::from_bool(arg1 >= arg2),
             BinOp::Add => match (arg1, arg2) {
                 (Value::Int(num1), Value::Int(num2)) => {
-                    Value::Int(num1 + num2)
+                    checked(num1.checked_add(num2))
                 }
                 (Value::Str(str1), Value::Str(str2)) => {
                     Value::Str(str1 + &str2)
@@ -467,20 +477,20 @@ impl BinOp {
             },
             BinOp::Sub => match (arg1, arg2) {
                 (Value::Int(num1), Value::Int(num2)) => {
-                    Value::Int(num1 - num2)
+                    checked(num1.checked_sub(num2))
                 }
                 _ => Value::Null,
             },
             BinOp::Mul => match (arg1, arg2) {
                 (Value::Int(num1), Value::Int(num2)) => {
-                    Value::Int(num1 * num2)
+                    checked(num1.checked_mul(num2))
                 }
                 _ => Value::Null,
             },
             BinOp::Div => match (arg1, arg2) {
                 (_, Value::Int(0)) => Value::Null,
                 (Value::Int(num1), Value::Int(num2)) => {
-                    Value::Int(num1 / num2)
+                    checked(num1.checked_div(num2))
                 }
                 _ => Value::Null,
             },
@@ -504,13 +514,13 @@ impl BinOp {
             },
             BinOp::Shl => match (arg1, arg2) {
                 (Value::Int(num1), Value::Int(num2)) => {
-                    Value::Int(num1 << num2)
+                    checked(u32::try_from(num2).ok().and_then(|n| num1.checked_shl(n)))
                 }
                 _ => Value::Null,
             },
             BinOp::Shr => match (arg1, arg2) {
                 (Value::Int(num1), Value::Int(num2)) => {
-                    Value::Int(num1 >> num2)
+                    checked(u32::try_from(num2).ok().and_then(|n| num1.checked_shr(n)))
                 }
                 _ => Value::Null,
             },
